@@ -101,6 +101,17 @@ TraceCodeConv ==
   /\ \A i \in 1 .. Len(Ev.r) :
        Rule(l, "CodeTables", CodeConvOK(Ev.c0 + i - 1, Ev.r[i]), <<"code", Ev.c0 + i - 1, Ev.r[i]>>)
 
+(* the same tables as the parser applies them to a field on the wire: e.field, e.c0 = first value of the block,  *)
+(* e.r[i] = -1 (message rejected) | code * 2 + top bit, for the field value e.c0 + i - 1                          *)
+WireCodeOK(field, v, r) ==
+  CASE field = "qtype" -> r = IF QTypeSupported(v) THEN v * 2 ELSE -1
+    [] field = "qclass" -> r = IF QClassSupported(v % 32768) THEN (v % 32768) * 2 + (v \div 32768) ELSE -1
+    [] OTHER -> r = IF (v % 32768) \in SupportedClasses THEN (v % 32768) * 2 + (v \div 32768) ELSE -1
+TraceWireCodes ==
+  /\ Ev.ev = "WireCodes"
+  /\ \A i \in 1 .. Len(Ev.r) :
+       Rule(l, "CodeTables", WireCodeOK(Ev.field, Ev.c0 + i - 1, Ev.r[i]), <<"wire", Ev.field, Ev.c0 + i - 1, Ev.r[i]>>)
+
 (* mnemonics: e.m = sequence of <<table, name, code>> *)
 MnemonicOK(m) ==
   CASE m[1] = "TYPE" -> m[2] \in DOMAIN TypeTable /\ TypeTable[m[2]] = m[3]
@@ -465,6 +476,23 @@ TraceDatagram ==
 (* NetRun (C14, sampled on real sockets): e.sent datagrams were multicast to a running         *)
 (* SimpleMdnsResponder and ServiceDiscovery; e.panics = panics observed on library threads;   *)
 (* e.usable = the application could still call get_known_services ("yes"/"no"/"inconclusive")  *)
+(* E2EForeign (C20, C15): a peer of another implementation (played on a plain socket) announces an instance to a  *)
+(* real ServiceDiscovery and withdraws it; its responses carry a question section (every goodbye, every other     *)
+(* announcement).  e.attempts[i] = [ann_q, bye, seen, gone, panic]                                                *)
+TraceE2EForeign ==
+  /\ Ev.ev = "E2EForeign"
+  /\ LET A == Ev.attempts
+         seen == {i \in 1 .. Len(A) : A[i].seen} IN
+     /\ Rule(l, "NoPanic", \A i \in 1 .. Len(A) : A[i].panic = "", <<"get_known_services panicked", Ev.flavour>>)
+     \* every announcement that was listed is withdrawn by its goodbye within 2.3 s (expiry: at once for TTL 0, one
+     \* second for the cache-flush bit); timing: one attempt that was listed and then gone is enough
+     /\ Rule(l, "E2EGoodbye", seen = {} \/ \E i \in seen : A[i].gone,
+             <<"listed-but-never-withdrawn", Ev.flavour, [i \in 1 .. Len(A) |-> <<A[i].ann_q, A[i].bye, A[i].seen, A[i].gone>>]>>)
+     \* and an announcement is listed whether or not it repeats a question (when the plain ones are)
+     /\ Rule(l, "E2EDiscovered",
+             (\E i \in seen : ~A[i].ann_q) => (\E i \in seen : A[i].ann_q),
+             <<"announcement-with-question-section-ignored", Ev.flavour>>)
+
 TraceNetRun ==
   /\ Ev.ev = "NetRun"
   /\ Rule(l, "LoopAlive", Ev.panics = <<>>, <<"panic on a library thread", Ev.panics>>)
@@ -798,8 +826,8 @@ Stateless ==
            \/ TraceNameNew \/ TraceLabelNew \/ TraceNameRel
            \/ TraceTxtSplit \/ TraceTxtAttrs \/ TraceTxtRaw \/ TraceTxtLong \/ TraceCStrNew
            \/ TraceDiscover \/ TraceEscape \/ TraceDatagram \/ TraceNetRun
-           \/ TraceApi \/ TraceResolverRun \/ TraceRespRun \/ TraceFramed \/ TraceE2E \/ TraceSvcbApi \/ TraceValueCmp \/ TraceParse \/ TracePeek \/ TraceInspect \/ TraceSinkBuild \/ TraceRoundTrip \/ TraceReparse
-           \/ TraceCodeConv \/ TraceMnemonics \/ TraceMatchType \/ TraceMatchClass
+           \/ TraceApi \/ TraceResolverRun \/ TraceRespRun \/ TraceFramed \/ TraceE2E \/ TraceE2EForeign \/ TraceSvcbApi \/ TraceValueCmp \/ TraceParse \/ TracePeek \/ TraceInspect \/ TraceSinkBuild \/ TraceRoundTrip \/ TraceReparse
+           \/ TraceCodeConv \/ TraceWireCodes \/ TraceMnemonics \/ TraceMatchType \/ TraceMatchClass
 
 Next == /\ l <= Len(Rec)
         /\ l' = l + 1
